@@ -29,7 +29,7 @@ func miceCfg(enc string, extra ...gate.Assumption) gcfg {
 }
 
 func checkC14(e *Env) {
-	e.R.Explanation = "Decided (narrow structural necessary conditions of C14; the behaviour — decode(encode(p)) == p and equality with the draft's recursive definition for every payload — is NOT decided): stream layout: the 8-byte big-endian record size is written first (not at all for the empty payload of draft-03), then for every proof in order its record, preceded by the proof itself for all but the first; the record written is buf[i*rs : min((i+1)*rs, len(buf))]; proof chain: the last record (i == 0 of the backward loop) hashes its bytes then 0x00, every other record hashes its rs bytes, then the proof of its successor (index rec+1 where rec is the index the result is stored at), then 0x01; the digest returned is FormatDigestHeader(proofs[0]) = ContentEncoding \"=\" base64(proof) with the per-draft alphabet (draft-02 raw URL, draft-03 standard), the same alphabet and algorithm name parseDigestHeader uses; empty payload: draft-03 returns the digest of SHA-256(0x00) and writes nothing, draft-02 encodes one (empty) record; the record count, evaluated by constant propagation on a grid of (length, record size) pairs covering both residue classes and the boundary, is ceil(len/rs) — this last obligation is sampling, not a proof. the decoder constructor refuses a stream only for an unparsable digest header, an unreadable record size, a record size of 0 or above the caller's limit, or an empty stream whose proof is not SHA-256(0x00) (no other rejecting branch). Decoder-side layout agreement is C15's. " +
+	e.R.Explanation = "Decided (narrow structural necessary conditions of C14; the behaviour — decode(encode(p)) == p and equality with the draft's recursive definition for every payload — is NOT decided): stream layout: the 8-byte big-endian record size is written first (not at all for the empty payload of draft-03), then for every proof in order its record, preceded by the proof itself for all but the first; the record written is buf[i*rs : min((i+1)*rs, len(buf))]; proof chain: the last record (i == 0 of the backward loop) hashes its bytes then 0x00, every other record hashes its rs bytes, then the proof of its successor (index rec+1 where rec is the index the result is stored at), then 0x01; the digest returned is FormatDigestHeader(proofs[0]) = ContentEncoding \"=\" base64(proof) with the per-draft alphabet (draft-02 raw URL, draft-03 standard), the same alphabet and algorithm name parseDigestHeader uses; empty payload: draft-03 returns the digest of SHA-256(0x00) and writes nothing, draft-02 encodes one (empty) record; the record count, evaluated by constant propagation on a grid of (length, record size) pairs covering both residue classes and the boundary, is ceil(len/rs) — this last obligation is sampling, not a proof. the decoder constructor refuses a stream only for an unparsable digest header, an unreadable record size, a record size of 0 or above the caller's limit, or an empty stream whose proof is not SHA-256(0x00) (no other rejecting branch). The decoder's unit logic (record+proof units validated with the flag Encode hashed them with, short last unit, nothing released before validation) is checked by the typestate rules shared with C15. " +
 		"Not decided: the round trip and digest equality for all payloads and record sizes (value-level); record sizes < 1."
 	e.R.RuleText = "emission-order rule in the specialised CFG (draft, emptiness, loop position); provenance of the written slices and of the hash inputs; E7 tables per draft; constant propagation of the record-count expression on a (len, rs) grid"
 	enc := e.fn("signedexchange/mice.(Encoding).Encode")
@@ -209,6 +209,9 @@ func checkC14(e *Env) {
 		errIs("N.empty-eof", "call:binary.Read(param:r,global:binary.BigEndian,local:recordSize)", "global:io.EOF"),
 		gate.Cmp("N.empty-not-draft02", "param:enc", token.NEQ, `const:"mi-sha256-draft2"`),
 	}, "digest header parses, record size readable, 0 < record size <= maxRecordSize, empty stream matches SHA-256(0x00)")
+	// the decoder side of the round trip: record+proof units, last unit short,
+	// flags 0x00/0x01 as Encode hashes them (the typestate rules of C15)
+	c15Obligations(e, "C14 inherits")
 	e.R.Floor("REJECT", 4)
 	e.R.Floor("ORDER", 8)
 	e.R.Floor("TABLE", 80)
